@@ -18,9 +18,9 @@ import types as pytypes
 
 FIELD_POOL = {
     # type expr -> (valid JSON values, invalid JSON values)
-    "int": ([0, 7, -3], ["s", None, 1.5, []]),
+    "int": ([0, 7, -3], ["s", None, 1.5, [], "12"]),
     "str": (["", "x"], [1, None, []]),
-    "bool": ([True, False], [0, "t"]),
+    "bool": ([True, False], [0, "t", "true"]),
     "Optional[int]": ([None, 4], ["s", []]),
     "List[int]": ([[], [1, 2]], [["a"], 3, None]),
     "Dict[str, bool]": ([{}, {"k": True}], [{"k": 1}, []]),
@@ -747,6 +747,121 @@ def check_c05(env, fam, L):
             if r2.kind != "ok" or not (r2.value == v and type(r2.value) is type(v)):
                 env.violation({"kind": "roundtrip", "family": "discriminated", "stage": "deserialize(serialize(v)) " + ("differs" if r2.kind == "ok" else "fails")},
                               {**wit, "value": harness.safe_repr(v), "serialized": s.value, "again": r2.brief()})
+
+
+def check_c13(env, fam, L):
+    """dispatch on the discriminator == the selected alternative alone on the same data (real code as oracle), strict and coerced;
+    data without a usable tag are rejected"""
+    from apischema import deserialization_method
+    from vf import harness
+    from vf.spec import canon
+
+    rng = env.rng
+    entries = [e for e in fam.entries if e[2] in ("bare", "subset", "optional")]
+    for label, expr, kind in entries:
+        ap = rng.random() < 0.3
+        al_name = rng.choice(["identity", "identity", "camel"])
+        al = _aliaser(al_name)
+        for coerce in (False, True):
+            kw = {"additional_properties": ap, "coerce": coerce}
+            if al:
+                kw["aliaser"] = al
+            T = L.T(expr)
+            harness.reset_all()
+            om = harness.call(deserialization_method, T, **kw)
+            prog = L.program(expr)
+            if om.kind != "ok":
+                env.violation({"kind": "compile", "family": "discriminated", "exc": om.exc or "ValidationError", "site": om.site}, {"program": prog, "outcome": om.brief()})
+                continue
+            um = om.value
+            alts = [a for a in fam.alts if kind != "subset" or a.name in fam.subset]
+            alt_m = {}
+            for a in alts:
+                o = harness.call(deserialization_method, L.T(a.name), **kw)
+                if o.kind == "ok":
+                    alt_m[a.name] = o.value
+            tagkey = aliased(fam.alias, al)
+            for dl, d in workload(fam, kind, rng, al, per_alt=2):
+                real = harness.call(um, d)
+                if real.kind == "exc":
+                    env.violation({"kind": "exception", "family": "discriminated", "exc": real.exc, "site": real.site, "coerce": coerce}, {"program": prog, "datum": d, "coerce": coerce, "observed": real.brief()})
+                    continue
+                env.case("disc13", fam.sig(), kind, coerce, ap, al_name, dl.split(":")[0], nontrivial=True)
+                wit = {"program": prog, "family": fam.describe(), "entry": label, "options": {"additional_properties": ap, "aliaser": al_name}, "coerce": coerce, "datum": d, "datum_label": dl, "union": real.brief()}
+                sel = None
+                if isinstance(d, dict) and isinstance(d.get(tagkey), str):
+                    cands = [a for a in alts if d[tagkey] in a.tags]
+                    if len(cands) == 1:
+                        sel = cands[0]
+                    elif len(cands) > 1:
+                        continue
+                if d is None and kind == "optional":
+                    continue
+                if sel is None:
+                    env.count("discriminated_untagged_checks")
+                    if real.kind == "ok":
+                        env.violation({"kind": "union-accepts-without-usable-tag", "family": "discriminated", "coerce": coerce}, wit)
+                    continue
+                if sel.name not in alt_m:
+                    continue
+                d2 = d if sel.tag_field else {k: v for k, v in d.items() if k != tagkey}
+                exp = harness.call(alt_m[sel.name], d2)
+                env.count("discriminated_dispatch_checks")
+                env.count("discriminated_dispatch_checks_coerce" if coerce else "discriminated_dispatch_checks_strict")
+                if exp.kind == "exc":
+                    continue
+                if (exp.kind == "ok") != (real.kind == "ok"):
+                    env.violation({"kind": "union-rejects-an-alternative-accepts" if exp.kind == "ok" else "union-accepts-all-alternatives-reject", "family": "discriminated", "coerce": coerce},
+                                  {**wit, "alternative": sel.name, "alternative_outcome": exp.brief()})
+                elif exp.kind == "ok":
+                    try:
+                        same = canon(exp.value) == canon(real.value)
+                    except Exception:
+                        same = exp.value == real.value
+                    if not same:
+                        env.violation({"kind": "union-result-differs-from-alternative", "family": "discriminated", "coerce": coerce}, {**wit, "alternative": sel.name, "alternative_outcome": exp.brief()})
+                else:
+                    a_, b_ = sorted(map(str, exp.errors)), sorted(map(str, real.errors))
+                    if a_ != b_:
+                        env.count("discriminated_error_sets_differ")  # informative only: C13 states the verdict and the value
+
+
+def check_c14(env, fam, L):
+    """coerce=True accepts whatever strict mode accepts, with an equal result (a discriminated union selects one alternative)"""
+    from apischema import deserialization_method
+    from vf import harness
+    from vf.spec import canon
+
+    rng = env.rng
+    for label, expr, kind in pick_entries(env, fam):
+        ap = rng.random() < 0.3
+        kw = {"additional_properties": ap}
+        T = L.T(expr)
+        harness.reset_all()
+        o1, o2 = harness.call(deserialization_method, T, **kw), harness.call(deserialization_method, T, coerce=True, **kw)
+        prog = L.program(expr)
+        if o1.kind != "ok" or o2.kind != "ok":
+            bad = o1 if o1.kind != "ok" else o2
+            env.violation({"kind": "compile", "family": "discriminated", "exc": bad.exc or "ValidationError", "site": bad.site}, {"program": prog, "outcome": bad.brief()})
+            continue
+        for dl, d in workload(fam, kind, rng, None, per_alt=2):
+            r = harness.call(o1.value, d)
+            if r.kind != "ok":
+                continue
+            rc = harness.call(o2.value, d)
+            env.count("monotonic_checks")
+            env.count("discriminated_monotonic_checks")
+            env.case("disc14", fam.sig(), kind, ap, dl.split(":")[0], nontrivial=True)
+            wit = {"program": prog, "family": fam.describe(), "entry": label, "options": {"additional_properties": ap}, "datum": d, "strict": r.brief(), "coerced": rc.brief()}
+            if rc.kind != "ok":
+                env.violation({"kind": "strict-accepted-coerce-rejected", "family": "discriminated", "exc": rc.exc}, wit)
+            else:
+                try:
+                    same = canon(r.value) == canon(rc.value)
+                except Exception:
+                    same = r.value == rc.value
+                if not same:
+                    env.violation({"kind": "coerced-image", "family": "discriminated"}, wit)
 
 
 def run_family(env, check, count):
